@@ -182,15 +182,23 @@ Section Sort.
     part_threads (N.to_nat nt) 0 a b length nt mcs (length mod mcs) (length / mcs) pivot
                  18446744073709551615 0.
 
-  (* while (rightwall > leftwall && rightwall - leftwall > thresh) { partitioner on [leftwall, rightwall] } *)
-  Fixpoint walls (wfuel : nat) (a : arr) (b thresh : N) (pivot : V) (lwall rwall : N) : option (arr * N * N) :=
+  (* while (rightwall > leftwall && rightwall - leftwall > thresh) {
+       gap = rightwall - leftwall; partitioner on [leftwall, rightwall];
+       if (rightwall <= leftwall || rightwall - leftwall >= gap) break;      (stall_exit: the no-progress exit) }
+     stall_exit = false is the loop before the fix (kept for the regression examples) *)
+  Fixpoint walls (stall_exit : bool) (wfuel : nat) (a : arr) (b thresh : N) (pivot : V) (lwall rwall : N)
+    : option (arr * N * N) :=
     if (lwall <? rwall) && (thresh <? rwall - lwall) then
       match wfuel with
       | O => None
       | S f =>
         match partitioner a (b + lwall) (rwall - lwall + 1) pivot with
         | None => None
-        | Some (a', l, r) => walls f a' b thresh pivot (l + lwall) (r + lwall)
+        | Some (a', l, r) =>
+          let lw' := l + lwall in
+          let rw' := r + lwall in
+          if stall_exit && ((rw' <=? lw') || (rwall - lwall <=? rw' - lw')) then Some (a', lw', rw')
+          else walls stall_exit f a' b thresh pivot lw' rw'
         end
       end
     else Some (a, lwall, rwall).
@@ -298,13 +306,15 @@ Section Sort.
 
   (* one call of *_qsort_inner up to the two forks: tri-median, parallel partition passes, sequential fix-up and
      (newrule) the pivot-is-maximum rule.  Returns the array, the final rightwall (= length of the left part) and
-     pivots_done.  newrule = false is the code before the fix (kept for the regression examples). *)
-  Definition qsort_node (newrule : bool) (wfuel : nat) (a : arr) (b len : N) : option (arr * N * bool) :=
+     pivots_done.  newrule / stall_exit = false is the code before the respective fix (kept for the regression examples). *)
+  Definition qsort_node (newrule stall_exit : bool) (wfuel : nat) (a : arr) (b len : N) : option (arr * N * bool) :=
     match trimedian a b len with
     | None => None
     | Some a1 =>
       let pivot := aget a1 (b + len / 2) in
-      match walls wfuel a1 b (p_thresh P len) pivot 0 (len - 1) with
+      (* with the no-progress exit the gap shrinks on every further pass: len passes are always enough *)
+      let wf := if stall_exit then S (N.to_nat len) else wfuel in
+      match walls stall_exit wf a1 b (p_thresh P len) pivot 0 (len - 1) with
       | None => None
       | Some (a2, lwall, rwall) =>
         match fixup a2 b len pivot lwall rwall with
@@ -322,26 +332,27 @@ Section Sort.
 
   (* *_qsort_inner on the segment [b, b+len); the two recursive calls work on disjoint segments (forked in
      the code), the model runs left then right *)
-  Fixpoint qsort_inner_gen (newrule : bool) (fuel wfuel : nat) (a : arr) (b len : N) : option arr :=
+  Fixpoint qsort_inner_gen (newrule stall_exit : bool) (fuel wfuel : nat) (a : arr) (b len : N) : option arr :=
     match fuel with
     | O => None
     | S f =>
       if p_small P len then (if b + len <=? bound then Some (base_sort a b len) else None)
       else
-        match qsort_node newrule wfuel a b len with
+        match qsort_node newrule stall_exit wfuel a b len with
         | None => None
         | Some (a3, rw, pivots_done) =>
-          match (if 0 <? rw then qsort_inner_gen newrule f wfuel a3 b rw else Some a3) with
+          match (if 0 <? rw then qsort_inner_gen newrule stall_exit f wfuel a3 b rw else Some a3) with
           | None => None
           | Some a4 =>
             if negb pivots_done && (0 <? len - rw) && (rw <? len)
-            then qsort_inner_gen newrule f wfuel a4 (b + rw) (len - rw) else Some a4
+            then qsort_inner_gen newrule stall_exit f wfuel a4 (b + rw) (len - rw) else Some a4
           end
         end
     end.
 
-  Definition qsort_inner := qsort_inner_gen true.
-  Definition qsort_inner_old := qsort_inner_gen false.
+  Definition qsort_inner := qsort_inner_gen true true.              (* the code as it is now *)
+  Definition qsort_inner_nostall := qsort_inner_gen true false.     (* before the no-progress exit *)
+  Definition qsort_inner_old := qsort_inner_gen false false.        (* before both fixes *)
 
   (* ------------------------------------------------------------------ qutil_mergesort *)
   (* for (k = ss-1; k >= fs; k--) { a[k+1] = a[k]; if (k == 0) break; }   shifts [fs, ss) right by one *)
